@@ -5,4 +5,4 @@ CONSTANTS
   Wide = FALSE
   AlphaCap = 4
   LenCap = 4
-  Budget = 160
+  Budget = 100
